@@ -565,54 +565,16 @@ def _dispatch_and_publication(ctx):
     repo = ctx.repo
     _route_selection(ctx, 'C05.R6')
 
-    ctx.rule('C05.R8', 'one configuration per transformed module: BeartypeSourceFileLoader.get_code obtains conf from '
-             'get_package_conf_or_none(fullname) and, before delegating to the standard loader, unconditionally '
-             'assigns that same object to self._module_conf (what source_to_code hands to the transformer) and to '
-             'claw_state.module_name_to_beartype_conf[fullname] (what the injected code looks up at run time under '
-             'self._module_name = fullname); source_to_code passes exactly those two attributes to the transformer')
+    ctx.rule('C05.R8', 'one configuration per transformed module: BeartypeSourceFileLoader.get_code, interpreted over {module '
+             'name excluded or not} × {configuration registered or not} × {the standard loader returns / raises} with a '
+             'stale run-time table entry present — when the standard loader compiles a hooked module the looked-up '
+             'configuration is on the loader (self._module_conf, what source_to_code hands to the transformer), the '
+             'module name is on the loader, and the run-time table maps the module name to that same configuration '
+             '(what the injected code looks up); a module that is not hooked publishes nothing; source_to_code passes '
+             'exactly those two attributes to the transformer')
     lm = repo.mod('beartype.claw._importlib._clawimpfileloader')
-    gc = repo.find_def(lm.name, 'BeartypeSourceFileLoader.get_code')
-    p0 = gc.args.args[1].arg
-    confs = [a for a in walk_shallow(gc) if isinstance(a, ast.Assign) and isinstance(a.value, ast.Call)
-             and dotted(a.value.func) == 'get_package_conf_or_none' and a.value.args and dotted(a.value.args[0]) == p0]
-    ctx.require(len(confs) == 1, 'get_code: expected one lookup get_package_conf_or_none(fullname)')
-    cv = dotted(confs[0].targets[0])
-
-    def gen(node):
-        out = []
-        if isinstance(node, ast.Assign) and len(node.targets) == 1 and dotted(node.value) == cv:
-            t = node.targets[0]
-            if dotted(t) == 'self._module_conf':
-                out.append('self-conf')
-            if isinstance(t, ast.Subscript) and norm(t.value).endswith('module_name_to_beartype_conf') and dotted(t.slice) == p0:
-                out.append('table')
-        if isinstance(node, ast.Assign) and len(node.targets) == 1 and dotted(node.targets[0]) == 'self._module_name' \
-                and dotted(node.value) == p0:
-            out.append('self-name')
-        return out
-    sites = []
-
-    def on_stmt(node, st):
-        if isinstance(node, (ast.Return, ast.Expr, ast.Assign)) and any(
-                isinstance(c, ast.Call) and norm(c.func) == 'super().get_code' for c in ast.walk(node)):
-            sites.append((node, st))
-    Flow(gen, mode='must', on_stmt=on_stmt).run(gc)
-    hooked = [(n_, st) for n_, st in sites if not any(
-        isinstance(i, ast.If) and n_ in i.body and ('is None' in norm(i.test) or '.match(' in norm(i.test)) for i in walk_shallow(gc))]
-    ctx.require(hooked, 'get_code: no delegation to the standard loader on the hooked path')
-    for n_, st in hooked:
-        for ev, what in (('self-conf', 'self._module_conf = conf'), ('table', f'module_name_to_beartype_conf[{p0}] = conf'),
-                         ('self-name', f'self._module_name = {p0}')):
-            ctx.ob('C05.R8', f'get_code:publishes:{ev}', lm.where(n_),
-                   f'`{what}` is executed unconditionally (plain assignment of the looked-up configuration) before the '
-                   f'module is compiled', ev in st,
-                   'on some path the module is compiled without this assignment (e.g. a conditional store or '
-                   'setdefault keeps an earlier configuration: the code is transformed for one configuration and runs '
-                   'with another)')
-    others = [c for c in ast.walk(gc) if isinstance(c, ast.Call) and isinstance(c.func, ast.Attribute)
-              and norm(c.func.value).endswith('module_name_to_beartype_conf') and c.func.attr in ('setdefault', 'update', 'pop', 'get')]
-    ctx.ob('C05.R8', 'get_code:no-conditional-publication', lm.where(others[0] if others else gc),
-           'the run-time table is written by plain assignment only', not others, f'{[norm(c)[:80] for c in others]}')
+    from .c16 import loader_protocol
+    loader_protocol(ctx, None, 'C05.R8')
     sc = repo.find_def(lm.name, 'BeartypeSourceFileLoader.source_to_code')
     tc = [c for c in walk_shallow(sc) if isinstance(c, ast.Call) and dotted(c.func) == 'BeartypeNodeTransformer']
     kw = {k.arg: norm(k.value) for c in tc for k in c.keywords}
